@@ -51,6 +51,10 @@ for fam, fdir in FAMILIES:
         replace=['Objects_Surface_local_value', 'Objects_NaturalCoordinate_get_surface_point'],
         outline_fp='all', defines={'FAM': fam, 'WB_VEC_CAP': 2}, expect_fail=['REACHABILITY-GUARD']))
 UNITS.append(dict(
+    name='plume_T_uniform', enforce='Features_PlumeModels_Temperature_Uniform_get_temperature', contracts='c05_plume_temperature.c', harness='h_plume_uniform',
+    targets=[dict(tu='source/world_builder/features/plume_models/temperature/uniform.cc', qual='WorldBuilder::Features::PlumeModels::Temperature::Uniform::get_temperature')],
+    outline_fp='all', defines={'WB_VEC_CAP': 2}, expect_fail=['REACHABILITY-GUARD']))
+UNITS.append(dict(
     name='continental_plate_T_chapman', enforce='Features_ContinentalPlateModels_Temperature_Chapman_get_temperature', contracts='c05_area_temperature.c',
     targets=[dict(tu='source/world_builder/features/continental_plate_models/temperature/chapman.cc',
                   qual='WorldBuilder::Features::ContinentalPlateModels::Temperature::Chapman::get_temperature')],
